@@ -32,8 +32,11 @@ func MakeFromRequest(r *http.Request) CacheKey {
 		scheme = "https"
 	}
 	normHost := strings.ToLower(r.Host)
-	normPath := path.Clean(r.URL.Path)
-	if strings.HasSuffix(r.URL.Path, "/") && !strings.HasSuffix(normPath, "/") {
+	// The path is keyed as it is spelled on the wire: in the decoded URL.Path an encoded slash ("%2F")
+	// would become a separator and "/a%2Fb" would share the entry of "/a/b".
+	rawPath := r.URL.EscapedPath()
+	normPath := path.Clean(rawPath)
+	if strings.HasSuffix(rawPath, "/") && !strings.HasSuffix(normPath, "/") {
 		// path.Clean drops a trailing slash, but "/dir/" and "/dir" are different resources.
 		normPath += "/"
 	}
